@@ -153,6 +153,15 @@ SPECS = {
         nontrivial=lambda src, ops: sum(1 for l in src if l == "stabilise") >= 2,
         rule_nt="at least two stabilises (the audit runs after every op)",
     ),
+    "C20": dict(
+        title="weak_memoize_fn: one shared node per live key, created in the scope of weak_memoize_fn",
+        streams=[("memo", 900, 50000, 40), ("memo-dynamic", 300, 10000, 0)],
+        proj=dict(keep_ops=("memocall", "stabilise", "read"), keep_events=("memofn", "bindrun", "invalidate"), dump=True),
+        oracle=O.oracle_memo, profiles=("debug",), dump=True,
+        nontrivial=lambda src, ops: sum(1 for l in src if l.startswith("memocall") or " memocall " in l) >= 2
+        and any(e.startswith("memofn") for o in ops for e in o.events),
+        rule_nt="at least two memoised calls in the source and the underlying function ran at least once",
+    ),
 }
 
 
